@@ -874,6 +874,11 @@ orc_parse_handle_opcode (OrcParser *parser, const OrcLine *line)
 
     args[j] = line->tokens[i];
 
+    /* a declared variable is a variable, even when its name is something
+     * strtod reads as a number ("nan", "inf", "infinity") */
+    if (orc_program_find_var_by_name (parser->program, line->tokens[i]) >= 0)
+      continue;
+
     unused = strtod (line->tokens[i], &end);
     if (end != line->tokens[i]) {
       char varname[80];
